@@ -130,7 +130,14 @@ def run(ctx):
     c3.gi = dict(name=b'proj_a', src=b'/W/proj_a', text=b'*.o\n/build/\n', use=True,
                  ents=[(b'/W/proj_a/build', True), (b'/W/proj_a/build/out.bin', False), (b'/W/proj_a/top.o', False), (b'/W/proj_a/main.c', False), (b'/W/proj_a/obj', True), (b'/W/proj_a/obj/x.o', False), (b'/W/proj_a/.gitignore', False)])
     c3.gis = [c3.gi]
-    scs = [c0, c1, c2, c3] + [gen(rng, ['parfile', 'parblock'][i % 2], i) for i in range(n)]
+    # corpus: entries named `.git` (a repository's metadata directory, a submodule's `.git` file) are hidden entries like any
+    # other: no pattern mentions them, so they are copied
+    c4 = treerun.Scn(); c4.d(b'/W').d(b'/W/S').d(b'/W/S/.git').f(b'/W/S/.git/HEAD').d(b'/W/S/.git/refs').f(b'/W/S/.git/refs/main').d(b'/W/S/mod').f(b'/W/S/mod/.git', text=b'gitdir: ../.git/modules/mod').f(b'/W/S/mod/code.c').f(b'/W/S/obj.o').f(b'/W/S/.hidden')
+    c4.f(b'/W/S/.gitignore', text=b'*.o\n/build/\n'); c4.d(b'/W/DEST'); c4.opts = ['r', 'gitignore']; c4.paths = [b'S', b'DEST']
+    c4.gi = dict(name=b'S', src=b'/W/S', text=b'*.o\n/build/\n', use=True,
+                 ents=[(b'/W/S/.git', True), (b'/W/S/.git/HEAD', False), (b'/W/S/.git/refs', True), (b'/W/S/.git/refs/main', False), (b'/W/S/mod', True), (b'/W/S/mod/.git', False), (b'/W/S/mod/code.c', False), (b'/W/S/obj.o', False), (b'/W/S/.hidden', False), (b'/W/S/.gitignore', False)])
+    c4.gis = [c4.gi]
+    scs = [c0, c1, c2, c3, c4] + [gen(rng, ['parfile', 'parblock'][i % 2], i) for i in range(n)]
     runs = []
     with core.Scratch('c17') as base:
         # a HOME whose git configuration excludes a lot (core.excludesFile and the XDG default): only the source's own root
